@@ -874,7 +874,7 @@ def closures_in_contract_order(file, nm, real, b):
     return [real[j] for j in assign], [(k, j) for k, j in enumerate(assign) if k != j]
 
 
-def run_verus(unit_name, text, workdir, extra_args=None, timeout=900):
+def run_verus(unit_name, text, workdir, extra_args=None, timeout=2400):
     os.makedirs(workdir, exist_ok=True)
     path = os.path.join(workdir, "unit_%s.rs" % unit_name)
     with open(path, "w") as f:
